@@ -2,7 +2,7 @@
 from common_tb import COMMON_TB
 
 CFG = dict(
-    id="C06", tie="Tie.C06", n_quick=400, n_thorough=1600, thorough_seeds=3,
+    id="C06", tie="Tie.C06", n_quick=300, n_thorough=1600, thorough_seeds=3,
     rule="every case is a whole run on a fresh real pkg/database DB (tmpfs dir when available): 3/4 of the cases are "
          "CONCURRENT histories - 2..5 goroutines (2..8 thorough, half of them with background FlushIndex/CompactIndex "
          "loops) x 6..21 calls over 4 plain keys + 2 reference keys + 2 sorted sets with the full operation mix (Set, "
